@@ -1,5 +1,6 @@
 \* Reducer level, exhaustive: one message, three event ids, every event kind and the batch pairs.
-\* Measured: 19,210 distinct states, 4.96M transitions.
+\* plus one open write batch (one staged event) with appends committing before its commit.
+\* Measured: 428,905 distinct states, 12.6M transitions.
 SPECIFICATION SpecDirect
 CONSTANTS
   Msgs = {"m1"}
@@ -13,5 +14,5 @@ CONSTANTS
   DeltaAfterLoss = TRUE
 VIEW MCView
 INVARIANTS TypeOK C40_SeqShape
-PROPERTIES C40_SeqMonotone C40_TerminalOnce C40_ReplayNoop C40_CacheIsNotDurable
+PROPERTIES C40_StagedCommit C40_SeqMonotone C40_TerminalOnce C40_ReplayNoop C40_CacheIsNotDurable
 CHECK_DEADLOCK FALSE
